@@ -607,7 +607,7 @@ def declared_order_problems(inp, root):
 
 # ------------------------------------------------------------ P4: cache ---
 EDITABLE = ('Top-1.0', 'Aa-1.0')
-CACHE_INPUTS = ('deps', 'deps-tie', 'incpaths-ab', 'incpaths-ba')
+CACHE_INPUTS = ('deps', 'deps-tie', 'incpaths-ab', 'incpaths-ba', 'hilo')
 DEPA, DEPB = 'inc_a/Dep-1.0', 'inc_b/Dep-1.0'
 T0 = 1000000000
 T0_NS = T0 * 10 ** 9 + 100000000      # logical clock: T0 + 0.1 s + 0.25 s per tick
@@ -615,7 +615,7 @@ TICK_NS = 250000000
 
 
 def cache_menu(tier):
-    ops = [('run', 0), ('run', 2), ('run', 3)]
+    ops = [('run', 0), ('run', 2), ('run', 3), ('run', 4)]
     if tier == 'thorough':
         ops.append(('run', 1))
     ops += [('touch', DEPA), ('touch', DEPB)]
@@ -705,7 +705,9 @@ class CacheWorld(object):
         dirs = inp['opts'].get('include_dirs')
         if dirs:
             return ['%s/Dep-1.0' % dirs[0]]
-        return list(I.GENERATED) + ['GLib-2.0', 'GObject-2.0']
+        if inp['name'] == 'hilo':
+            return ['High-1.0', 'Low-1.0']
+        return ['Top-1.0', 'Aa-1.0', 'Bb-1.0', 'GLib-2.0', 'GObject-2.0']
 
     def entry(self, n):
         """The cache entry of dependency n: the file OBSERVED to hold that namespace after a run
